@@ -30,21 +30,37 @@ Definition kw_where : bytes := [119; 104; 101; 114; 101].
 Definition kw_insert : bytes := [105; 110; 115; 101; 114; 116].
 
 (* detect_specific_sparql_error: the first two tests return before any slicing; the third takes
-   `&input[..offset]`; check_missing_prefix and check_missing_triple_separator take the very same
-   slice again and otherwise only use iterators (lines, split_whitespace, chars) and a slice at an
-   index returned by `find(':')`, so they add no new way to fail: they are summarised as kind 0.
+   `&input[..offset]`; check_missing_prefix(text, offset) and check_missing_triple_separator(text, offset)
+   take `&text[..offset]` again and otherwise only use iterators (lines, split_whitespace, chars) and a
+   slice at an index returned by `find(':')`, so their only way to fail is that slice.
+   Invariant of the code that this model makes explicit: `offset` is a byte offset into `input`, and
+   EVERY slice that uses it is a slice of `input` itself - never of a derived copy (the lower-cased
+   `lower` is only searched with `contains`).  `detect_gen` takes the text handed to
+   check_missing_prefix as a parameter so that this can be stated (`detect` passes `input`) and so that
+   the variant that passes the lower-cased copy can be refuted (C17_lowercased_copy_refuted):
+   `to_lowercase` changes byte lengths (U+212A K -> k: 3 bytes -> 1, U+0130 -> 3 bytes, ...).
    `to_lowercase().contains(kw)` is modelled with ASCII lowering: no non-ASCII character lowercases
    to a string containing one of the ASCII letters of "select", "where", "insert" except U+0130,
-   whose lowering "i\u{307}" cannot be followed directly by 'n'. *)
-Definition detect (input : bytes) (off : nat) : option N :=
+   whose lowering "i\u{307}" cannot be followed directly by 'n' (U+212A lowers to 'k', not among them). *)
+Definition detect_gen (prefix_text : bytes) (input : bytes) (off : nat) : option N :=
   let lower := map ascii_lower input in
   if containsb kw_select lower && negb (containsb kw_where lower) && negb (containsb kw_insert lower)
   then Some 1
   else if negb (Nat.eqb (countb 123 input) (countb 125 input)) then Some 2
   else match slice_to input off with
        | None => None                                   (* &input[..offset] panics *)
-       | Some before => if Nat.odd (countb 34 before) then Some 3 else Some 0
+       | Some before =>
+           if Nat.odd (countb 34 before) then Some 3
+           else match slice_to prefix_text off with     (* check_missing_prefix(prefix_text, offset) *)
+                | None => None
+                | Some _ =>
+                    match slice_to input off with       (* check_missing_triple_separator(input, offset) *)
+                    | None => None
+                    | Some _ => Some 0
+                    end
+                end
        end.
+Definition detect (input : bytes) (off : nat) : option N := detect_gen input input off.
 
 (* error_span_end (the repaired code, commit 22495a6):
    input.get(offset..).and_then(|r| r.chars().next()).map_or(offset.min(len), |c| offset + c.len_utf8()) *)
@@ -62,15 +78,16 @@ Definition span_end_old (input : bytes) (off : nat) : nat := Nat.min (S off) (le
 Definition snippet_ok (input : bytes) (lo hi : nat) : bool :=
   boundary input lo && boundary input hi && Nat.leb lo hi.
 
-Definition render_with (se : bytes -> nat -> nat) (input : bytes) (off : nat) : rout :=
+Definition render_gen (prefix_text : bytes) (se : bytes -> nat -> nat) (input : bytes) (off : nat) : rout :=
   let lc := linecol input 0 off 1 1 in
-  match detect input off with
+  match detect_gen prefix_text input off with
   | None => Panic
   | Some k =>
       let hi := se input off in
       if snippet_ok input off hi then Rendered k (fst lc) (snd lc) off hi else Panic
   end.
 
+Definition render_with (se : bytes -> nat -> nat) (input : bytes) (off : nat) : rout := render_gen input se input off.
 Definition render := render_with span_end.          (* the code at HEAD *)
 Definition render_old := render_with span_end_old.  (* the code before commit 22495a6 *)
 
@@ -113,3 +130,16 @@ Definition slice_ok (input : bytes) (e : err_slice) : bool :=
   | Inside start len => Nat.leb (start + len)%nat (length input) && boundary input start
   | Outside _ => true
   end.
+
+(* A (rejected) variant of the code that hands the lower-cased copy of the request to
+   check_missing_prefix while `offset` still refers to the original text.  `lower_kelvin` is
+   str::to_lowercase restricted to what the witness needs: ASCII letters and U+212A KELVIN SIGN
+   (bytes E2 84 AA) -> 'k'. *)
+Fixpoint lower_kelvin (s : bytes) : bytes :=
+  match s with
+  | 226 :: 132 :: 170 :: t => 107 :: lower_kelvin t
+  | b :: t => ascii_lower b :: lower_kelvin t
+  | [] => []
+  end.
+Definition format_parse_error_lowercased_copy (input : bytes) (e : err_slice) : rout :=
+  render_gen (lower_kelvin input) span_end input (error_offset input e).
